@@ -644,6 +644,40 @@ func (A *Analysis) expandPhi(x *ssa.Phi) *F {
 	return DropInessential(Or(alts...))
 }
 
+// PhiTakes returns the condition (over the branch conditions between the phi's block and its immediate dominator) under
+// which a non-loop phi takes its i-th operand; nil if that cannot be expressed (loop header, too many paths).
+func (A *Analysis) PhiTakes(x *ssa.Phi, i int) *F {
+	b := x.Block()
+	if A.loopHd[b] || i >= len(b.Preds) {
+		return nil
+	}
+	d := b.Idom()
+	if d == nil {
+		return nil
+	}
+	paths := simplePaths(d, b, 24)
+	if paths == nil {
+		return nil
+	}
+	var alts []*F
+	for _, p := range paths {
+		for _, blk := range p[1 : len(p)-1] {
+			if A.loopHd[blk] {
+				return nil
+			}
+		}
+		if p[len(p)-2] != b.Preds[i] {
+			continue
+		}
+		c, _ := A.pathCond(p)
+		alts = append(alts, c)
+	}
+	if len(alts) == 0 {
+		return False
+	}
+	return DropInessential(Or(alts...))
+}
+
 // inlineCall summarises a call of an acyclic bool-returning module function as a formula.
 func (A *Analysis) inlineCall(call *ssa.Call, fn *ssa.Function) *F {
 	if len(fn.Blocks) == 0 || len(fn.Blocks) > 40 {
